@@ -77,14 +77,14 @@ func (c *SMTPClient) ReadReply() Reply {
 				r.Enh = f[0]
 			}
 		}
-		r.Lines = append(r.Lines, text)
+		r.Lines = append(r.Lines, msgIDRe.ReplaceAllString(text, "(msg ID = *)"))
 		if len(line) == 3 || line[3] == ' ' {
 			break
 		}
 	}
 	c.Replies = append(c.Replies, r)
 	if s := simrt.Cur(); s != nil {
-		s.Logf("%s < %s", c.Name, truncate(msgIDRe.ReplaceAllString(r.String(), "(msg ID = *)"), 160))
+		s.Logf("%s < %s", c.Name, truncate(r.String(), 160))
 	}
 	return r
 }
